@@ -14,7 +14,7 @@
    Eval is the denotational meaning over tiny images (sequences of rationals <<n, d>>, d > 0):
    @ is nested application, operators act voxel-wise with either operand order, comparisons give 1/0.
    scale is kept doubled (s2 = 2 * scale). *)
-EXTENDS Integers, Sequences, FiniteSets, TLC, Json
+EXTENDS Integers, Sequences, FiniteSets, TLC, Json, FiniteSetsExt
 
 NVox == 2
 (* ---- rationals ---- *)
@@ -83,4 +83,21 @@ GaussCentre(shape10, scale10, shift10) == <<(GaussShapePx(shape10, scale10) - 1)
 GaussSymmetric(shape10, scale10) ==
   LET n == GaussShapePx(shape10, scale10) c == GaussCentre(shape10, scale10, 0) IN
   \A k \in 0..(n - 1) : (k * c[2] - c[1]) = -(((n - 1 - k) * c[2]) - c[1])      \* voxel k and its mirror are equidistant
+(* from_atoms(atoms, weights, center)(scale): a histogram of (atoms - center) / scale with unit bins on the cube
+   [-size/2, size/2)^3, size = ceil(2 rmax), rmax = the largest distance from the centre in pixels.  Coordinates are given in
+   QUARTER PIXELS (a4, c4 integers; the real arguments are a4/4 * scale nm), so nothing depends on the scale - which is the unit
+   covariance the property states - and offsets are chosen odd so that no atom sits on a bin edge. *)
+Sq(x) == x * x
+AtomR2(a4, c4) == Sq(a4[1] - c4[1]) + Sq(a4[2] - c4[2]) + Sq(a4[3] - c4[3])          \* (quarter pixels)^2
+MaxR2(atoms4, c4) == CHOOSE r \in {AtomR2(atoms4[i], c4) : i \in 1..Len(atoms4)} : \A i \in 1..Len(atoms4) : AtomR2(atoms4[i], c4) <= r
+AtomsSize(atoms4, c4) == CHOOSE n \in 1..64 : 4 * n * n >= MaxR2(atoms4, c4) /\ (n = 1 \/ 4 * (n - 1) * (n - 1) < MaxR2(atoms4, c4))
+AtomBin(a4, c4, size, ax) == (2 * (a4[ax] - c4[ax]) + 4 * size) \div 8                \* floor((a - c)/4 + size/2), 0-based
+AtomsHist(atoms4, w, c4) ==
+  LET n == AtomsSize(atoms4, c4) IN
+  [size |-> n,
+   bins |-> {[k |-> <<AtomBin(atoms4[i], c4, n, 1), AtomBin(atoms4[i], c4, n, 2), AtomBin(atoms4[i], c4, n, 3)>>,
+              w |-> LET k == <<AtomBin(atoms4[i], c4, n, 1), AtomBin(atoms4[i], c4, n, 2), AtomBin(atoms4[i], c4, n, 3)>>
+                        same == {j \in 1..Len(atoms4) : <<AtomBin(atoms4[j], c4, n, 1), AtomBin(atoms4[j], c4, n, 2), AtomBin(atoms4[j], c4, n, 3)>> = k}
+                    IN FoldSet(LAMBDA j, acc : acc + w[j], 0, same)] : i \in 1..Len(atoms4)}]
+OffEdges(atoms4, c4) == \A i \in 1..Len(atoms4) : \A ax \in 1..3 : (atoms4[i][ax] - c4[ax]) % 2 = 1 \/ (c4[ax] - atoms4[i][ax]) % 2 = 1
 =============================================================================
